@@ -381,6 +381,9 @@ func (g unionBuilderGenerator) EmitNodeAssemblerMethodAssignNode(w io.Writer) {
 			if v.Kind() != datamodel.Kind_Map {
 				return datamodel.ErrWrongKind{TypeName: "{{ .PkgName }}.{{ .Type.Name }}", MethodName: "AssignNode", AppropriateKind: datamodel.KindSet_JustMap, ActualKind: v.Kind()}
 			}
+			if _, err := na.BeginMap(v.Length()); err != nil { // allocates what the entries below are assembled into, as for a caller doing this by hand
+				return err
+			}
 			itr := v.MapIterator()
 			for !itr.Done() {
 				k, v, err := itr.Next()
